@@ -174,7 +174,14 @@ def eval_compu(case, res: core.ShardResult | None = None) -> list:
     fails = []
     for v in ([only] if only is not None else range(lo, hi + 1)):
         try:
-            if rc.valid_internal(v) is not True or not rc.roundtrip_exact(v):
+            if rc.valid_internal(v) is not True:
+                continue
+            if ir.get("cat") == "TEXTTABLE":
+                # a text stands for a whole range of internal values; the PDU is canonical iff it carries the
+                # value the text is encoded as (COMPU-INVERSE-VALUE, else the lower limit)
+                if rc.p2i(rc.i2p(v).values[0]).exact() != v:
+                    continue
+            elif not rc.roundtrip_exact(v):
                 continue
         except Exception:
             continue
